@@ -63,6 +63,13 @@ NodeEdges ==
   \cup Cross({"available", "logouting"}, {"binding"}) \cup {<<"binding", "binded">>, <<"binding", "available">>, <<"binded", "available">>}
   \cup Cross(NodeOut, {"logouting"}) \cup Cross({"logouting"}, {"forbidden"} \cup NodeOut)
 
+\* validation rules of an appchain, bitxhub-core rule-mgr
+RuleEdges ==
+  {<<"bindable", "available">>, <<"bindable", "binding">>, <<"binding", "available">>, <<"binding", "bindable">>,
+   <<"available", "unbinding">>, <<"unbinding", "bindable">>, <<"unbinding", "available">>, <<"bindable", "forbidden">>}
+  \cup Cross({"bindable", "available", "binding", "unbinding", "forbidden"}, {"unavailable"})   \* cleared with its appchain
+  \cup Cross({"available", "binding", "unbinding", "forbidden"}, {"bindable"})                  \* a built-in rule is reset instead
+
 \* prev, cur : object -> status before / after a block; ngov = number of governance-capable transactions in the block
 LifecycleViol(kind, edges, prev, cur, ngov) ==
   LET both == DOMAIN prev \cap DOMAIN cur
